@@ -177,3 +177,23 @@ def no_format_specs(chk, ctx, rule, fis) -> None:
         chk.ob(rule, f'{fi.qualname}:plain_numbers', not bad, fi.loc,
                'numbers are written into the text with str()/repr() semantics only (no format specification that could round or re-format them)',
                got=bad[:3])
+
+
+def default_helpers(chk, ctx, rule, modules) -> None:
+    """wherever ``divmod`` / ``rake`` are used as defaults (field defaults, keyword defaults) the names are the package's own helpers
+    imported from pokerkit.utilities - a module that lost the import would silently fall back to the builtin ``divmod`` (integer
+    floor division: fractional chips are destroyed) or fail on ``rake``"""
+    import ast
+    for mod in modules:
+        mi = ctx.prog.module(mod)
+        uses = set()
+        for n in ast.walk(mi.tree):
+            for d in (list(n.args.defaults) + [x for x in n.args.kw_defaults if x is not None]) if isinstance(n, (ast.FunctionDef, ast.Lambda)) else []:
+                if isinstance(d, ast.Name) and d.id in ('divmod', 'rake'):
+                    uses.add(d.id)
+            if isinstance(n, (ast.AnnAssign, ast.Assign)) and isinstance(getattr(n, 'value', None), ast.Name) and n.value.id in ('divmod', 'rake'):
+                uses.add(n.value.id)
+        for name in sorted(uses):
+            got = mi.imports.get(name)
+            chk.ob(rule, f'{mod}:{name}', got == f'pokerkit.utilities.{name}', f'pokerkit/{mod}.py',
+                   f'the default `{name}` of this module is pokerkit.utilities.{name} (not the builtin, not another function)', got=got)
